@@ -78,6 +78,8 @@ pub struct MsgConfig {
     /// Some(include_checksum)
     pub armor: Option<bool>,
     pub seed: [u8; 32],
+    /// use explicit subpackets with a fixed creation time (output is then independent of the clock)
+    pub fixed_sig_time: bool,
 }
 
 pub struct DrawOpts<'a> {
@@ -102,6 +104,7 @@ impl MsgConfig {
             recipients: vec![],
             armor: None,
             seed: [7; 32],
+            fixed_sig_time: true,
         }
     }
 
@@ -177,7 +180,7 @@ impl MsgConfig {
             1 => Some(false),
             _ => None,
         };
-        MsgConfig { src, utf8, chunk, compression, signers, sign_text, enc, passwords, recipients, armor, seed: t.seed32() }
+        MsgConfig { src, utf8, chunk, compression, signers, sign_text, enc, passwords, recipients, armor, seed: t.seed32(), fixed_sig_time: t.bool() }
     }
 
     pub fn labels(&self, rec: &mut Rec) {
@@ -323,7 +326,22 @@ impl MsgConfig {
         }
         let keys: Vec<&'static zoo::ZKey> = self.signers.iter().map(|(k, _)| zoo::get(*k)).collect();
         for (z, (_, h)) in keys.iter().zip(self.signers.iter()) {
-            b.sign(&z.secret.primary_key, Password::empty(), *h);
+            if self.fixed_sig_time {
+                use pgp::packet::{Subpacket, SubpacketData};
+                use pgp::types::KeyDetails;
+                let key = &z.secret.primary_key;
+                let hashed = vec![
+                    Subpacket::regular(SubpacketData::IssuerFingerprint(key.fingerprint()))?,
+                    Subpacket::regular(SubpacketData::SignatureCreationTime(pgp::types::Timestamp::from_secs(1_700_000_777)))?,
+                ];
+                let mut unhashed = vec![];
+                if z.version != pgp::types::KeyVersion::V6 {
+                    unhashed.push(Subpacket::regular(SubpacketData::IssuerKeyId(key.legacy_key_id()))?);
+                }
+                b.sign_with_subpackets(key, Password::empty(), *h, pgp::composed::SubpacketConfig::UserDefined { hashed, unhashed });
+            } else {
+                b.sign(&z.secret.primary_key, Password::empty(), *h);
+            }
         }
         match self.enc {
             Enc::None => self.finish(b, &mut rng, out),
